@@ -42,7 +42,7 @@ def canon(x):
     if isinstance(x, (set, frozenset)):
         return ("set",) + tuple(sorted(repr(canon(i)) for i in x))
     if callable(x) and hasattr(x, "__name__"):
-        return ("fn", x.__name__)
+        return ("fn", x.__name__, tuple(repr(c.cell_contents) for c in (getattr(x, "__closure__", None) or ())))
     if isinstance(x, (int, float, str, bool, type(None), complex, np.floating, np.integer)):
         return x if not isinstance(x, (np.floating, np.integer)) else x.item()
     if hasattr(x, "validate"):            # default / function post-selection objects
@@ -61,7 +61,7 @@ def fingerprint(obj, w=None):
     user = None
     if w is not None:
         user = ("unset" if w.ps is UNSET else None if w.ps is None else
-                tuple(r.as_tuple() for r in w.ps.rules), repr(w.par.get()))
+                ps_key(w.ps), repr(w.par.get()))
     return kernel.fp8((canon(vars(obj)), user))
 
 
@@ -94,6 +94,17 @@ def agree(a, b):
 UNSET = object()
 
 
+def ps_key(ps):
+    """Canonical form of a post-selection as the user configured it."""
+    if ps is None:
+        return None
+    if hasattr(ps, "rules"):
+        return tuple(r.as_tuple() for r in ps.rules)
+    fn = getattr(ps, "function", ps)
+    cells = tuple(c.cell_contents for c in (getattr(fn, "__closure__", None) or ()))
+    return ("fn", getattr(fn, "__qualname__", "?"), cells)
+
+
 def user_ps(obj_ps, w):
     """The post-selection as the user configured it: the object they assigned, else what the emulator object holds."""
     return obj_ps if w.ps is UNSET else w.ps
@@ -121,9 +132,15 @@ def mk_source(kind, env):
             "ind": lambda: emu.Source(indistinguishability=env.L2)}[kind]()
 
 
+def _mode_rule(m):
+    return lambda st: st[m] == 1          # predicates from one factory: same code, different captured mode
+
+
 def mk_ps(kind):
     if kind == "none":
         return None
+    if kind in ("fn0", "fn1"):
+        return _mode_rule(int(kind[2]))
     p = lw.PostSelection()
     if kind == "empty": return p      # no rule yet: rules may be added later to this very object
     if kind == "r0": p.add(0, (0, 1))
@@ -221,7 +238,7 @@ def sampler_config(s, w=None):
 # ---------------- QuickSampler
 def quick_alphabet(env, tier):
     a = [("circuit", k) for k in "abcpe"] + [("param", v) for v in (env.R[1], env.L[1])] \
-        + [("input", k) for k in ("10", "01", "11", "bad")] + [("ps", k) for k in ("none", "r0", "r1", "rX", "empty")] \
+        + [("input", k) for k in ("10", "01", "11", "bad")] + [("ps", k) for k in ("none", "r0", "r1", "rX", "empty", "fn0", "fn1")] \
         + [("pc", True), ("pc", False), ("read",), ("draw",), ("ps_inplace",)]
     if tier == "thorough":
         a += [("edit", "bs"), ("edit", "herald")]
@@ -277,7 +294,7 @@ def quick_fresh(q, w):
 
 def quick_config(q, w):
     return kernel.fp8((full_fingerprint(q.circuit), tuple(q.input_state.s), q.photon_counting,
-                       tuple(r.as_tuple() for r in getattr(user_ps(q.post_select, w), 'rules', []))))
+                       ps_key(user_ps(q.post_select, w))))
 
 
 # ---------------- Analyzer
@@ -352,7 +369,7 @@ def analyzer_fresh(an, w):
 
 def analyzer_config(an, w):
     return kernel.fp8((full_fingerprint(an.circuit),
-                       tuple(r.as_tuple() for r in getattr(user_ps(an.post_selection, w), 'rules', []))))
+                       ps_key(user_ps(an.post_selection, w))))
 
 
 # ---------------------------------------------------------------------------
